@@ -61,7 +61,7 @@ Print Assumptions serial_monitor_sound.
    failures, shutdown, foreign halves), the trace monitor Case_C08.ok — serial part AND the timed walk
    (not-early, exact clean burst, not-late: a call that is not a forced flush starts no later than [timeout]
    after the later of the latest submission and the end of the previous call — so the retry of kept arguments
-   after any number of failed calls comes after ONE timeout —, forced-flush bookkeeping, tie accounting) — accepts the model's own
+   after any number of failed calls comes after ONE timeout —, DaemonEnded only in the step of a scripted Shutdown, forced-flush bookkeeping, tie accounting) — accepts the model's own
    trace.  So on any case where the implementation's trace equals the model's trace the monitor cannot
    raise an alarm: a rejection always means that the implementation differs from the model. *)
 Theorem monitor_complete :
@@ -228,4 +228,13 @@ Example late_retry_rejected :
                        []; [FnStart 2 [1] 32%N]; [FnEnd 2 true [1]]]) = false /\
   ok_walk (Case 8 evs [[]; [FnStart 0 [1] 8%N]; [FnEnd 0 false [1]]; [FnStart 1 [1] 16%N]; [FnEnd 1 false [1]];
                        [FnStart 2 [1] 24%N]; []; [FnEnd 2 true [1]]]) = true.
+Proof. vm_compute. split; reflexivity. Qed.
+
+(* the daemon ends only by a scripted Shutdown: a daemon found ended after a failed call (killed by the failure,
+   so that the kept arguments are never offered again) is rejected by the walk *)
+Example dead_daemon_rejected :
+  ok_walk (Case 8 [Submit 0 (Plain 1); Advance 8; FnFail]
+                  [[]; [FnStart 0 [1] 8%N]; [FnEnd 0 false [1]; DaemonEnded]]) = false /\
+  ok_walk (Case 8 [Submit 0 (Plain 1); Advance 8; Shutdown]
+                  [[]; [FnStart 0 [1] 8%N]; [DaemonEnded]]) = true.
 Proof. vm_compute. split; reflexivity. Qed.
